@@ -1,6 +1,6 @@
 (* C16 - Devices and writers keep exactly what they were given, routed by type. Statements only.
-   The general clause (any history, any mixture) is decided by the correspondence on real objects; the
-   theorems below cover single objects, foreign values, waveguide groups and the single-column writer. *)
+   The general clause is C16_extend_any_mixture / C16_any_sequence_of_extends; that the caller's lists are left as they
+   were cannot be expressed in a model with immutable values and is decided by the correspondence on real objects. *)
 From Coq Require Import List Bool NArith.
 Import ListNotations.
 From Femto Require Import Writers.Device Writers.DeviceProofs.
@@ -27,6 +27,34 @@ Theorem C16_trench_writer_single_column : forall k id,
   tw_init (Obj k id) = tw_init (Grp [Obj k id]) /\ tw_init (Obj k id) = [Obj k id].
 Proof. exact tw_single. Qed.
 Print Assumptions C16_trench_writer_single_column.
+
+(* Device.extend with ANY mixture of supported objects and groups of plain waveguides (ok_entry): no exception, and each of
+   the five collections receives exactly the entries of its own type (sel k), in the order given, groups intact; the
+   collections are otherwise untouched *)
+Theorem C16_extend_any_mixture : forall d l, forallb ok_entry l = true ->
+  exists d', dev_extend d (Grp l) = (d', None) /\ forall k, five k = true -> fld k d' = fld k d ++ sel k l.
+Proof. exact extend_general. Qed.
+Print Assumptions C16_extend_any_mixture.
+
+(* ... and so does any sequence of such calls: after the history every collection is the concatenation, in call order, of
+   what it was given *)
+Theorem C16_any_sequence_of_extends : forall ls d, Forall (fun l => forallb ok_entry l = true) ls ->
+  let r := run_hist d (map (fun l => DExtend (Grp l)) ls) in
+  Forall (fun x => x = None) (snd r) /\ forall k, five k = true -> fld k (fst r) = fld k d ++ flat_map (sel k) ls.
+Proof. exact extend_history. Qed.
+Print Assumptions C16_any_sequence_of_extends.
+
+(* every accepted entry lands in the collection of its own type and in no other *)
+Theorem C16_own_collection_only : forall l it, In it l -> ok_entry it = true ->
+  In it (sel (ekind it) l) /\ forall k, k <> ekind it -> ~ In it (sel k l).
+Proof. exact sel_partition. Qed.
+Print Assumptions C16_own_collection_only.
+
+(* an object of any other type (or a nested / empty list) anywhere in the argument makes the call raise *)
+Theorem C16_foreign_anywhere_rejected : forall d l it, In it l -> bad_key (key_of it) = true ->
+  snd (dev_extend d (Grp l)) <> None.
+Proof. exact extend_foreign_anywhere. Qed.
+Print Assumptions C16_foreign_anywhere_rejected.
 
 Example C16_example :
   let h := [ DAppend (Obj KMk 1); DExtend (Grp [Obj KWg 2; Grp [Obj KWg 3; Obj KWg 4]; Obj KNwg 5; Obj KUtc 6]);
